@@ -58,6 +58,10 @@ func (vc *ConnCursor) Rowid() (int64, error) {
 }
 
 func (vc *ConnCursor) Column(context *sqlite.VirtualTableContext, i int) error {
+	if context.NoChange() {
+		// a column an UPDATE does not assign: Update sees NoChange() and keeps it
+		return nil
+	}
 	switch i {
 	case 0:
 		if vc.vm.sc.deadline.IsZero() {
@@ -119,7 +123,10 @@ func (c *ConnModule) Update(value sqlite.Value, values ...sqlite.Value) error {
 	}
 
 	c.sc.deadline, c.sc.writeTime = newDeadline, newWriteTime
-	c.sc.txFixedWriteTime = false
+	if !writeTime.NoChange() {
+		// an assigned write_time replaces the time pinned for the transaction
+		c.sc.txFixedWriteTime = false
+	}
 	c.sc.ResetContext()
 
 	return nil
